@@ -12,7 +12,7 @@ import (
 )
 
 type workItem struct {
-	prefix []int32
+	prefix []int64
 	model  []uint64
 }
 
@@ -30,7 +30,7 @@ type Violation struct {
 	Assert   string
 	Msg      string
 	Inputs   map[string]interface{}
-	Path     []int32
+	Path     []int64
 	Obs      []string
 	Native   string // native replay verdict
 	File     string
@@ -49,15 +49,15 @@ type valSample struct {
 type Inconclusive struct {
 	Kind string
 	Msg  string
-	Path []int32
+	Path []int64
 }
 
 type pathState struct {
 	ex      *Explorer
-	prefix  []int32
+	prefix  []int64
 	preModel []uint64
 	pos     int
-	trace   []int32
+	trace   []int64
 	known   map[*Term]bool
 	model   map[*Term]uint64
 	modelOK bool
@@ -269,7 +269,7 @@ func (ps *pathState) decideBool(in *Interp, c *Term) bool {
 	}
 	r, m := ps.checkWithModel(in, otherLit)
 	if r == Unsat {
-		d := int32(2)
+		d := int64(2)
 		if mv {
 			d |= 1
 		}
@@ -279,7 +279,7 @@ func (ps *pathState) decideBool(in *Interp, c *Term) bool {
 	}
 	// both sides feasible (or other side unknown: keep it, over-approximation)
 	ps.forks++
-	alt := make([]int32, len(ps.trace)+1)
+	alt := make([]int64, len(ps.trace)+1)
 	copy(alt, ps.trace)
 	if !mv {
 		alt[len(ps.trace)] = 1
@@ -290,7 +290,7 @@ func (ps *pathState) decideBool(in *Interp, c *Term) bool {
 	}
 	ps.ex.noteFork(in)
 	ps.ex.push(it)
-	d := int32(0)
+	d := int64(0)
 	if mv {
 		d = 1
 	}
@@ -307,6 +307,23 @@ func (ex *Explorer) noteFork(in *Interp) {
 	ex.mu.Unlock()
 }
 
+// candidate picks the value a symbolic integer is concretised to next. The
+// value is part of the decision trace so that re-execution does not depend on
+// which model the solver happens to return.
+func (ps *pathState) candidate(in *Interp, t *Term) uint64 {
+	if ps.pos < len(ps.prefix) {
+		c := uint64(ps.prefix[ps.pos])
+		ps.pos++
+		ps.trace = append(ps.trace, int64(c))
+		ps.installPreModel(in)
+		return c
+	}
+	ps.ensureModel(in)
+	c := t.Eval(ps.model, map[*Term]uint64{})
+	ps.trace = append(ps.trace, int64(c))
+	return c
+}
+
 // choose is a free n-way choice (v.Choice).
 func (ps *pathState) choose(in *Interp, n int) int {
 	if n <= 1 {
@@ -320,9 +337,9 @@ func (ps *pathState) choose(in *Interp, n int) int {
 		return int(d >> 2)
 	}
 	for k := n - 1; k >= 1; k-- {
-		alt := make([]int32, len(ps.trace)+1)
+		alt := make([]int64, len(ps.trace)+1)
 		copy(alt, ps.trace)
-		alt[len(ps.trace)] = int32(k << 2)
+		alt[len(ps.trace)] = int64(k << 2)
 		it := workItem{prefix: alt}
 		if ps.modelOK {
 			it.model = ps.modelVec(in, ps.model)
@@ -463,7 +480,7 @@ func (ps *pathState) assertObl(in *Interp, id string, c *Term) {
 			ps.assume(in, c)
 		}()
 	default:
-		ex.addInconclusive(Inconclusive{Kind: "solver-unknown", Msg: "assert " + id, Path: append([]int32(nil), ps.trace...)})
+		ex.addInconclusive(Inconclusive{Kind: "solver-unknown", Msg: "assert " + id, Path: append([]int64(nil), ps.trace...)})
 	}
 }
 
@@ -476,7 +493,7 @@ func (ex *Explorer) addViolation(in *Interp, ps *pathState, id, msg string, m ma
 		return // keep at most 3 witnesses per assert id
 	}
 	ex.violations = append(ex.violations, &Violation{Property: ex.property, Harness: ex.harness, Assert: id, Msg: msg, Inputs: w,
-		Path: append([]int32(nil), ps.trace...), Obs: ps.evalObs(in, m)})
+		Path: append([]int64(nil), ps.trace...), Obs: ps.evalObs(in, m)})
 }
 
 func (ex *Explorer) addInconclusive(ic Inconclusive) {
